@@ -19,7 +19,9 @@ class Validate:
       If the content of the field is not valid, according to its required type.
     """
     fieldname = self.__class__.FIELD_ALIAS.get(fieldname, fieldname)
-    v = self._data[fieldname]
+    v = self._data.get(fieldname, None)
+    if v is None:
+      raise gfapy.NotFoundError("Field {} not found".format(fieldname))
     t = self._field_or_default_datatype(fieldname, v)
     gfapy.Field._validate_gfa_field(v, t, fieldname)
 
